@@ -1003,7 +1003,7 @@ def explore(ctx: runner.Ctx):
     def sampled(case):
         ctx.label("src:sampled")
         check_case(ctx, case)
-    ctx.given(st_case(), sampled, ctx.budget(16000, 200000))
+    ctx.given(st_case(), sampled, ctx.budget(12000, 200000))
 
 
 EXCLUDE_KNOWN = exclusion_active()
